@@ -84,6 +84,7 @@ pub enum K {
     RegLine,
     DropUnreg,
     Contend,
+    CapPost,
 }
 
 #[derive(Clone, Debug)]
@@ -137,7 +138,7 @@ impl Profile {
         Profile {
             weights: vec![],
             nicks: (0..8).map(|i| format!("n{}", i)).collect(),
-            chans: vec!["#c0".into(), "#c1".into(), "#c2".into(), "&l0".into()],
+            chans: vec!["#c0".into(), "#c1".into(), "#c2".into(), "&l0".into(), "#Mixed".into()],
             max_conns: 6,
             oper_names: vec![],
             reg_passwords: vec![],
@@ -826,6 +827,7 @@ pub fn gen_op(m: &Model, p: &Profile, seed: &OpSeed) -> Option<Op> {
         K::Wallops => format!("WALLOPS :{}", s.choose(TEXTS)),
         K::Kill => format!("KILL {} :{}", nick_pick(m, p, &mut s, true), s.choose(TEXTS)),
         K::Whowas => format!("WHOWAS {}", nick_pick(m, p, &mut s, false)),
+        K::CapPost => ["CAP END", "CAP LS 302", "CAP REQ :multi-prefix", "CAP LIST", "CAP REQ :bogus-cap", "PASS again", "USER again 0 * :Again"][s.pick(7)].to_string(),
         K::Die => {
             if s.chance(50) {
                 "DIE".to_string()
